@@ -125,6 +125,9 @@ func runDagCheck(c *RunCtx) {
 			if pass.Canon && !deepScenario(sc, c.Tier == "thorough") {
 				continue
 			}
+			if (sc.Light == 1 && pass.K+pass.D > 1) || (sc.Light == 2 && pass.K+pass.D > 0) {
+				continue
+			}
 			units = append(units, unit{pass, pname, sc})
 		}
 	}
@@ -132,8 +135,8 @@ func runDagCheck(c *RunCtx) {
 	sort.SliceStable(units, func(i, j int) bool {
 		wi := (units[i].pass.K*2+units[i].pass.D)*10 + units[i].sc.N
 		wj := (units[j].pass.K*2+units[j].pass.D)*10 + units[j].sc.N
-		if (units[i].pass.K+units[i].pass.D == 0) != (units[j].pass.K+units[j].pass.D == 0) {
-			return units[i].pass.K+units[i].pass.D == 0 // the zero-deviation sweep goes first
+		if (units[i].pass.K == 0) != (units[j].pass.K == 0) {
+			return units[i].pass.K == 0 // the sweeps without scheduling deviations are cheap and go first
 		}
 		return wi > wj
 	})
@@ -242,6 +245,7 @@ func runDagCheck(c *RunCtx) {
 			res.count("retry_enters", cnt.RetryEnters)
 			res.count("buffer_flushes", cnt.Flushes)
 			res.count("shared_graph_enters", cnt.SharedEnters)
+			res.count("executions_ending_with_a_leaked_library_goroutine_after_run_returned", cnt.Leaks)
 			if len(res.Samples) < 3 {
 				res.sample(map[string]any{"scenario": sc.String(), "pass": pname, "executions": res.Counters[pname+"_executions"], "distinct_outcomes": len(outcomes)})
 			}
